@@ -1,11 +1,18 @@
 #!/bin/bash
-# Builds the framework from files on disk only (offline): the whole Coq development
-# (full .vo build) and the Rust harness against /repo.
+# Builds the framework from files on disk only (offline): the Coq development of every
+# claimed property (full .vo build) and the Rust harness binaries against /repo.
 set -e
 cd "$(dirname "$0")"
 export CARGO_NET_OFFLINE=true
 python3 tools/gen_tables.py
-( cd coq && coq_makefile -f _CoqProject -o Makefile >/dev/null && timeout 3400 make -j16 >/dev/null )
+python3 tools/mk_coqproject.py
+IDS=$(python3 -c "import json; print(' '.join(c['property_id'] for c in json.load(open('MANIFEST.json'))['checks']))")
+TARGETS=""; BINS=""
+for i in $IDS; do
+  TARGETS="$TARGETS Props/$i.vo Corr/$i.vo"
+  BINS="$BINS --bin $(python3 -c "import json; print(json.load(open('tools/propcfg/$i.json'))['mode'])")"
+done
+( cd coq && coq_makefile -f _CoqProject -o Makefile >/dev/null && timeout 3400 make -j16 $TARGETS >/dev/null )
 cp /repo/Cargo.lock harness/Cargo.lock
-( cd harness && RUSTFLAGS="-Awarnings" cargo build --offline -q )
+( cd harness && RUSTFLAGS="-Awarnings" cargo build --offline -q $BINS )
 echo setup-ok
